@@ -18,3 +18,6 @@
 (define-fun spec.limLe ((a Int) (b Int)) Bool (or (= b 0) (and (not (= a 0)) (<= a b))))
 (define-fun spec.atLimit ((v Int) (l Int)) Bool (and (not (= l 0)) (>= v l)))
 (define-fun spec.satAdd ((a Int) (b Int)) Int (ite (> (+ a b) 18446744073709551615) 18446744073709551615 (+ a b)))
+
+; ghost provenance of IR registers (defined by the contract of CodeBuilder.GetFreeRegister)
+(declare-fun spec.fromGetFreeRegister (Int) Bool)
